@@ -496,8 +496,8 @@ func clusterSummary(c *xdsresource.ClusterResource) interface{} {
 // ============================================================================================
 
 type decGen struct {
-	r    *rng
-	seq  int
+	r     *rng
+	seq   int
 	cover map[string]int
 }
 
